@@ -2,14 +2,14 @@
 from props import matcher_common as mc
 
 NAMESPACE = 'C01'
-LEAN_TARGETS = ['MxV.Props.C01']
-THEOREMS = ['C01_tame', 'C01_reachable', 'C01_schema', 'C01_tree']
+LEAN_TARGETS = ['MxV.Props.C01', 'MxV.Props.Slotted']
+THEOREMS = ['C01_tame', 'C01_reachable', 'C01_schema', 'C01_tree', 'Slotted.C01_slotted', 'Slotted.C01_slotted_schema', 'Slotted.slotted_count', 'Slotted.tame_subset_slotted']
 TRUSTED_BASE = ['Lean 4.33.0 kernel', 'axioms: propext, Quot.sound, Classical.choice only (audited per theorem)',
                 'translator extract/*.py (templates regenerated every run; C03.templates_lang_eq re-decided)',
                 'correspondence harness (real library vs Mfull on all 94 types, vs Msimple on the 68 Tame types)',
                 'pinned schema copy = MusicXML 4.0']
 ASSUMPTIONS = ['theorems are about Msimple (Tame types); the tie to the code is the correspondence run of this check',
-               'Wild types (26): no theorem; behaviour pinned by the Mfull correspondence and the open findings',
+               'the remaining 16 content models (choices below repeated particles, repeated leaf names): no theorem; behaviour pinned by the Mfull correspondence and the open findings',
                'nested documents: the per-node statement is lifted by the recursion of _final_checks (every checked node is checked)']
 KINDS = ['mixed', 'word', 'worddup', 'perm', 'fwd', 'worddel', 'addonly', 'mixed']
 
